@@ -47,6 +47,8 @@ def cases(draw):
     c["pattern"] = draw(st.sampled_from([None, None, None, None, "no_temperature", "complementary", "complementary_blocks", "first_month_no_T", "first_month_no_T"]))
     # coarse instruments: whole degrees / whole kWh, or 5-degree and 10-kWh steps - many days then carry identical values
     c["coarse"] = draw(st.sampled_from([None, None, "whole", "steps", "steps"]))
+    # a frame shared with the hourly pipeline carries an irradiance column (with its own gaps) that the daily classes do not use
+    c["extra_ghi"] = draw(st.sampled_from([None, None, None, "gaps", "complete"]))
     if c["input"] == "reads":
         c["lengths"] = draw(st.lists(st.integers(26, 34), min_size=2, max_size=13))
         c["nan_reads"] = draw(st.lists(st.integers(0, 12), max_size=2))
@@ -114,6 +116,11 @@ def build(c):
         # a weather outage over the whole first calendar month (or weather that starts later than the bills)
         first = (df.index.year == df.index[0].year) & (df.index.month == df.index[0].month)
         df.loc[df.index[first], "temperature"] = np.nan
+    if c.get("extra_ghi"):
+        g = np.round(rng.uniform(0, 300, len(df)), 1)
+        if c["extra_ghi"] == "gaps":
+            g[rng.random(len(df)) < 0.15] = np.nan
+        df["ghi"] = g
     cls = em.BillingReportingData if fam == "billing" else em.DailyReportingData
     return cls(df, is_electricity_data=True), df
 
@@ -131,7 +138,7 @@ def judge(c, rec):
         rec.case(c, False, ["family=" + fam, "input-rejected"])
         return
     out = m.predict(data)
-    cls = ["family=" + fam, "input=" + c["input"], "pattern=" + str(c.get("pattern")), "coarse=" + str(c.get("coarse"))]
+    cls = ["family=" + fam, "input=" + c["input"], "pattern=" + str(c.get("pattern")), "coarse=" + str(c.get("coarse")), "extra-ghi-column=" + str(c.get("extra_ghi"))]
     if "observed" not in out or len(out) == 0:
         rec.case(c, False, cls + ["no-usage-or-empty"])
         return
